@@ -98,6 +98,25 @@ def run(tier):
         {"all": False, "enable": "#diagnostic,hugeParam,unslice", "disable": "appendAssign,#opinionated", "params": {"captLocal.paramsOnly": "false", "elseif.skipBalanced": "false"}, "go": "go1.20"},
         {"all": True, "enable": None, "disable": "ruleguard", "params": {"tooManyResultsChecker.maxResults": 2, "unnamedResult.checkExported": "true", "ifElseChain.minThreshold": 1, "nestingReduce.bodyWidth": 1, "underef.skipRecvDeref": "false", "truncateCmp.skipArchDependent": "false", "commentedOutCode.minLength": 3, "rangeExprCopy.sizeThreshold": 8, "rangeExprCopy.skipTestFuncs": "false", "rangeValCopy.skipTestFuncs": "false"}, "go": "1.13"},
     ]
+    # user rules whose filters depend on the package being analysed: the CLIs share one checker set over
+    # all packages, the analysis driver builds one per pass
+    with open(os.path.join(ws, "go.mod"), "a") as f:
+        f.write("\nrequire github.com/quasilyte/go-ruleguard/dsl v0.3.22\n")
+    os.makedirs(os.path.join(ws, "rules"), exist_ok=True)
+    rules = os.path.join(ws, "rules", "pkgdep.go")
+    open(rules, "w").write('''package gorules
+
+import "github.com/quasilyte/go-ruleguard/dsl"
+
+func pkgDependent(m dsl.Matcher) {
+	m.Match(`fi()`).Where(m.File().PkgPath.Matches(`[02468]$`)).Report(`fi() in a package whose path ends in an even digit`)
+	m.Match(`$x++`).Where(m["x"].Object.IsGlobal()).Report(`package-level $x incremented`)
+	m.Match(`$x[:]`).Where(m.File().PkgPath.Matches(`mix`)).Report(`full slice of $x in the mixed package`)
+	m.Match(`len($s) == 0`).Where(!m.File().PkgPath.Matches(`cmdmain$`)).Report(`len($s) == 0 outside cmdmain`)
+}
+''')
+    confs.append({"all": False, "enable": "ruleguard,unslice", "disable": "", "params": {"ruleguard.rules": rules}, "go": None})
+    confs.append({"all": True, "enable": None, "disable": "#performance", "params": {"ruleguard.rules": rules}, "go": "1.18"})
     # a checker enabled by name while one of its tags is disabled (precedence must agree everywhere)
     confs.append({"all": False, "enable": "hugeParam,dupSubExpr,rangeValCopy,unslice,assignOp", "disable": "#performance", "params": {}, "go": None})
     byname = {i["name"]: i for i in infos}
